@@ -532,6 +532,31 @@ func genC07(g *Gen) {
 				break
 			}
 		}
+		// the same fill drained from the YOUNG end and by key (removals that are not from the old end), with the
+		// oldest keys looked up afterwards
+		for _, pop := range []string{"removeyoungest", "remove"} {
+			k := 0
+			popf := func() string {
+				if pop == "remove" {
+					k++
+					return "remove " + itoa(n+20-k)
+				}
+				return pop
+			}
+			var ops []string
+			ops = append(ops, "create")
+			for i := 0; i < n+20; i++ {
+				ops = append(ops, "add "+itoa(i)+" "+itoa(i))
+			}
+			for i := 0; i < n-n/4+5; i++ {
+				ops = append(ops, popf())
+				if sparse(i, n+20-i, n) {
+					ops = append(ops, "count", "getyoungest")
+				}
+			}
+			ops = append(ops, "count", "get 0", "get 1", "get 2", "getoldest", "add 0 7", "count", "removeoldest", "removeoldest", "count")
+			g.Emit("lru", []string{itoa(2*n + 100)}, ops)
+		}
 	}
 	n := 300
 	if g.Thorough() {
